@@ -281,7 +281,10 @@ type Rules struct {
 	// AnyFloatWidth: float32 and float64 of the same numeric value are equal
 	// (used for transcoding through JSON, which erases the width).
 	AnyFloatWidth bool
-	// NilEmpty: (Go side) not used for V.
+	// AnyNaN: all NaNs of one width are the same value (payload and sign are
+	// not part of the value). Used where values pass through Go float
+	// conversions, which quiet signalling NaNs.
+	AnyNaN bool
 }
 
 var maxInt64 = big.NewInt(math.MaxInt64)
@@ -381,6 +384,9 @@ func diff(exp, got V, r Rules, path string) string {
 				return ""
 			}
 			return fmt.Sprintf("%s: expected %v, got %v", path, exp, got)
+		}
+		if r.AnyNaN && exp.F32 == got.F32 && math.IsNaN(exp.Float()) && math.IsNaN(got.Float()) {
+			return ""
 		}
 		if exp.F32 != got.F32 || exp.Bits != got.Bits {
 			return fmt.Sprintf("%s: expected %v, got %v", path, exp, got)
